@@ -31,6 +31,7 @@ RULE = ("connect: every subset of the five protocols x every failing position x 
         "stream_file (8 variants: metadata given/not x initial volume known/not x AirPlay 1/2 receiver, real StreamClient and "
         "AirPlayV1/V2 protocol objects over fakes of what they acquire; + TXT records whose parsing raises) and play_url (local file / URL): "
         "a failure and a real cancellation at every collaborator call (points enumerated by a dry run), "
+        "the calls' own argument values (also ones failing by themselves), awaited releases taking 1..60 virtual seconds, "
         "every overlap (second call of either kind while the first is parked at every point; refused takeover "
         "by a foreign protocol; second call after the first failed); thorough adds fault x overlap products and "
         "PRNG-chosen call sequences. non-trivial = the call failed/was cancelled/was refused after at least one "
@@ -136,6 +137,14 @@ class World:
     def add(self, kind, obj):
         self.objs.append((kind, obj))
         return obj
+
+    slow = 0
+
+    async def slowly(self):
+        """An awaited release (audio source, web server, HTTP session) takes `slow` virtual
+        seconds before it has taken effect."""
+        if self.slow:
+            await asyncio.sleep(self.slow)
 
     def ledger(self):
         out = [kind for kind, o in self.objs if o.open]
@@ -393,6 +402,7 @@ def make_open_source(world):
             return EMPTY_METADATA
 
         async def close(self):
+            await world.slowly()
             self.open = False
             await world.plan.point("audio.close")
 
@@ -416,6 +426,7 @@ def make_web_server(world):
             self.open = True
 
         async def close(self):
+            await world.slowly()
             self.open = False
             await world.plan.point("server.close")
 
@@ -459,6 +470,7 @@ class FakeSessionManager(Obj):
         self.session = None
 
     async def close(self):
+        await self.world.slowly()
         self.open = False
         await self.world.plan.point("session.close")
 
@@ -497,7 +509,7 @@ def protocol_order():
 CONNECT_STEPS = ["connect", "register", "features", "device_info"]
 
 
-async def run_connect(subset, fault=None, delays=None, closes=None, lost=None):
+async def run_connect(subset, fault=None, delays=None, closes=None, lost=None, slow=0, cargs=None):
     """pyatv.connect with the protocols in `subset` (indices into PROTOCOLS order).  Per
     protocol the facade calls four things the protocol supplies: `await connect()` (which
     takes `delays[pos]` seconds of virtual time and then establishes a connection plus a
@@ -518,6 +530,7 @@ async def run_connect(subset, fault=None, delays=None, closes=None, lost=None):
     from pyatv.support import http
 
     world = World()
+    world.slow = slow or 0
     delays = list(delays or [0] * len(subset))
     closes = list(closes or ["sync"] * len(subset))
     if fault:
@@ -581,8 +594,9 @@ async def run_connect(subset, fault=None, delays=None, closes=None, lost=None):
                     conn["c"].open = False
                 elif "c" in conn:
                     async def closer():
-                        if close_mode == "late":
-                            await asyncio.sleep(0.3)
+                        if close_mode.startswith("late"):
+                            # the close takes (virtual) time: "late" = 0.3 s, "late:<seconds>"
+                            await asyncio.sleep(float(close_mode.split(":")[1]) if ":" in close_mode else 0.3)
                         conn["c"].open = False
                         if close_mode == "raise":
                             raise ConnectionResetError("connection reset while closing")
@@ -606,14 +620,32 @@ async def run_connect(subset, fault=None, delays=None, closes=None, lost=None):
 
     patches.set(pyatv, "PROTOCOLS", fake_protocols)
     patches.set(http, "create_session", create_session)
+    # ARGUMENTS of connect(): a configuration with services that are disabled (`also`: further
+    # protocol indices, present but disabled), without any identifier, a storage that raises,
+    # a caller-supplied session, a `protocol` argument
+    cargs = dict(cargs or {})
     config = conf.AppleTV("127.0.0.1", "verif")
-    for i in subset:
-        config.add_service(conf.ManualService(f"id{i}", order[i], 1000 + i, {}))
+    for i in sorted(set(subset) | set(cargs.get("also", []))):
+        ident = None if cargs.get("noid") else f"id{i}"
+        config.add_service(conf.ManualService(ident, order[i], 1000 + i, {}, enabled=i in subset))
+    kwargs = {}
+    if cargs.get("storage") == "raise":
+        class BadStorage:
+            async def get_settings(self, config):
+                raise OSError("storage unavailable")
+
+            def __str__(self):
+                return "BadStorage"
+        kwargs["storage"] = BadStorage()
+    if cargs.get("session"):
+        kwargs["session"] = object()
+    if "protocol" in cargs:
+        kwargs["protocol"] = order[cargs["protocol"]]
 
     before = set(asyncio.all_tasks())
     atv = None
     try:
-        plan.op_task = asyncio.ensure_future(pyatv.connect(config, loop))
+        plan.op_task = asyncio.ensure_future(pyatv.connect(config, loop, **kwargs))
         try:
             atv = await plan.op_task
             outcome = "ok"
@@ -625,7 +657,8 @@ async def run_connect(subset, fault=None, delays=None, closes=None, lost=None):
         pending_at_return = len([t for t in asyncio.all_tasks() - before
                                  if not t.done() and t is not asyncio.current_task()])
         # drain: let everything that was started run to its end (virtual time)
-        await asyncio.sleep(max(delays + [0]) + 1.0)
+        close_times = [float(c.split(":")[1]) for c in closes if c.startswith("late:")]
+        await asyncio.sleep(max(delays + close_times + [world.slow]) + 1.0)
         for _ in range(3):
             await asyncio.sleep(0)
         obs = {
@@ -745,23 +778,41 @@ class Rig:
 
         self.foreign_release = self.facade.takeover(Protocol.MRP, *[getattr(interface, IFACES[i]) for i in ifaces])
 
-    def call(self, op):
+    def call(self, op, args=None):
         """Coroutine for one operation of the real code.  op = ("stream", meta_given) or
-        ("play", local)."""
+        ("play", local).  `args` (JSON-able) sets the call's own ARGUMENT VALUES, including
+        ones that make the operation fail by themselves: play_url `position` (and other
+        kwargs), stream_file `metadata` ("bad" = a wrong type), `override`, extra kwargs,
+        `file` of an unsupported type ("__none__" stands for None)."""
         from pyatv.support.metadata import MediaMetadata
 
+        args = dict(args or {})
+        dec = lambda v: None if v == "__none__" else v
         if op[0] == "stream":
             md = MediaMetadata(title="t") if op[1] else None
-            return self.raop.stream_file("http://example.invalid/a.mp3", metadata=md)
+            if args.get("metadata") == "bad":
+                md = "not-a-metadata-object"
+            file = dec(args["file"]) if "file" in args else "http://example.invalid/a.mp3"
+            kw = {k: dec(v) for k, v in (args.get("kwargs") or {}).items()}
+            if "override" in args:
+                kw["override_missing_metadata"] = dec(args["override"])
+            return self.raop.stream_file(file, metadata=md, **kw)
         url = os.path.abspath(__file__) if op[1] else "http://example.invalid/a.mp4"
-        return self.airplay.play_url(url)
+        kw = {k: dec(v) for k, v in (args.get("kwargs") or {}).items()}
+        if "position" in args:
+            kw["position"] = dec(args["position"])
+        return self.airplay.play_url(url, **kw)
 
-    async def run_op(self, op, plan):
+    async def run_op(self, op, plan, args=None):
         """Run one operation under `plan` to its end; returns the outcome class."""
         from pyatv import exceptions
 
         self.world.plan = plan
-        task = plan.op_task = asyncio.ensure_future(self.call(op))
+        try:
+            coro = self.call(op, args)
+        except Exception as ex:      # the call itself rejects its arguments
+            return "err:" + type(ex).__name__
+        task = plan.op_task = asyncio.ensure_future(coro)
         try:
             await task
             out = "ok"
@@ -808,10 +859,11 @@ def stray(before):
     return out
 
 
-async def scenario_single(op, vol_known, fault_at, kind, foreign=(), raop_props=None):
+async def scenario_single(op, vol_known, fault_at, kind, foreign=(), raop_props=None, args=None, slow=0):
     """One call with one fault (or none), optionally while a foreign protocol holds a
     takeover; then a fresh stream_file must be accepted."""
     rig = await Rig(vol_known, raop_props=raop_props).setup()
+    rig.world.slow = slow or 0
     try:
         if foreign:
             rig.foreign_takeover(foreign)
@@ -819,7 +871,7 @@ async def scenario_single(op, vol_known, fault_at, kind, foreign=(), raop_props=
         env = rig.world.ledger()
         ids0 = rig.world.open_ids()
         plan = Plan(fault_at, kind)
-        out = await rig.run_op(op, plan)
+        out = await rig.run_op(op, plan, args)
         obs = {"outcome": out, "env": env, "ledger": rig.world.ledger(), "points": plan.n, "names": plan.names,
                "untouched": all(x in rig.world.open_ids() for x in ids0), "stray_tasks": len(stray(before_tasks))}
         if rig.foreign_release:
@@ -932,14 +984,19 @@ def evaluate(case):
         from harness.core import vloop
 
         fault = tuple(case["fault"]) if case["fault"] else None
-        obs = vloop.run(run_connect, case["subset"], fault, case.get("delays"), case.get("closes"), case.get("lost"))
+        obs = vloop.run(run_connect, case["subset"], fault, case.get("delays"), case.get("closes"), case.get("lost"), case.get("slow"), case.get("cargs"))
         mfault = (4 * fault[0] + fault[1], fault[2]) if fault else None
         return obs, [f"run connect:{csv([str(i) for i in case['subset']])} - {fault_str(mfault)}"]
     if fam == "single":
         op, vol = tuple(case["op"]), case["vol"]
         fault = tuple(case["fault"]) if case["fault"] else None
         obs = run_async(scenario_single(op, vol, fault[0] if fault else None, fault[1] if fault else "fail",
-                                        tuple(case["foreign"]), case.get("raop_props")))
+                                        tuple(case["foreign"]), case.get("raop_props"), case.get("args"), case.get("slow")))
+        a = case.get("args") or {}
+        if op[0] == "stream" and a.get("metadata") == "bad":
+            op = ("stream", True)       # some metadata object was passed: no get_metadata call ...
+        if op[0] == "stream" and a.get("override") is True and (op[1] or a.get("metadata")):
+            op = ("stream", False)      # ... unless override_missing_metadata asks for the file's metadata too
         if case.get("raop_props") is not None:
             # the model counterpart of "the helper raises on this TXT record": a failure at the
             # synchronous point of that helper
@@ -1103,6 +1160,14 @@ def compare(ctx, case, obs, answers):
         if m != impl:
             ctx.disagree(case, impl, ans, where=where)
 
+    if fam == "single" and case.get("args") is not None and (
+            obs["outcome"].startswith("err:") or args_key(case) in OWN_FAIL):
+        # the call's own arguments make it fail (at a place that is not a collaborator call): oracle only
+        ctx.note("args:own-failure:" + (obs["outcome"][4:] if obs["outcome"].startswith("err:") else "with-fault"))
+        return
+    if fam == "connect" and case.get("cargs") and obs["outcome"].startswith("err:"):
+        ctx.note("connect-args:own-failure:" + obs["outcome"][4:])      # rejected by its own arguments: oracle only
+        return
     if fam == "connect" and case.get("lost") is not None:
         ctx.note("connect:lost-during-connect")     # early close by the device listener: oracle only
         return
@@ -1177,6 +1242,16 @@ def gen_cases(ctx):
                 for cls in chosen:
                     cases.append({"family": "connect", "subset": subset, "fault": [k, step, "fail:" + cls],
                                   "delays": [0] * m})
+            # ARGUMENTS of connect()
+            others = [i for i in range(n) if i not in subset]
+            for ca in ([{"also": others[:2]}, {"session": True, "protocol": subset[0]}] if others else [{"session": True}]) + \
+                    ([{"noid": True}, {"storage": "raise"}] if k == m - 1 else []):
+                cases.append({"family": "connect", "subset": subset, "fault": [k, (k + mask) % 4, "fail"],
+                              "delays": [0] * m, "cargs": ca})
+            # the HTTP session takes (virtual) time to close
+            for d in ((1, 4, 10, 60) if (ctx.thorough or m <= 2) else (60,)):
+                cases.append({"family": "connect", "subset": subset, "fault": [k, (k + d) % 4, "fail"],
+                              "delays": [0] * m, "slow": d})
             # an already connected protocol loses its connection while connect() is still under way
             if k >= 1:
                 for lost in range(k if ctx.thorough else 1):
@@ -1192,6 +1267,11 @@ def gen_cases(ctx):
                 cpats = [["raise" if j == 0 else "late" for j in range(m)],
                          ["late" if j == 0 else "raise" for j in range(m)],
                          [modes[crng.randint(0, 2)] for _ in range(m)]]
+                # durations of the close coroutines (virtual seconds): 0, 1, 4, 10, 60
+                durs = [0, 1, 4, 10, 60]
+                for d in (durs if (ctx.thorough or m <= 3) else [durs[(mask + k) % len(durs)], 60]):
+                    cpats.append([f"late:{d}" if j == (mask + d) % k else "sync" for j in range(m)])
+                cpats.append([f"late:{durs[(j + mask) % len(durs)]}" for j in range(m)])
                 for step in ((0, 3) if not ctx.thorough else range(len(CONNECT_STEPS))):
                     for cp in cpats:
                         cases.append({"family": "connect", "subset": subset, "fault": [k, step, "fail"],
@@ -1210,6 +1290,27 @@ def gen_cases(ctx):
                                          classes=(-1 if ctx.thorough else 3) if not foreign else 0, salt=salt)
             for f in faults:
                 cases.append({"family": "single", "op": list(op), "vol": c, "fault": f, "foreign": foreign})
+    #    DURATIONS of the awaited releases (audio source, web server): 1..60 virtual seconds
+    for op, c in variants():
+        nm = names[key(op, c)]
+        for d in (1, 4, 10, 60):
+            picks = [None] + faults_for(nm)[(d % 3)::(3 if ctx.thorough else 7)]
+            for f in picks:
+                cases.append({"family": "single", "op": list(op), "vol": c, "fault": f, "foreign": [], "slow": d})
+    #    ARGUMENT VALUES of the calls themselves, including ones that make the call fail on its own
+    play_args = [{"position": v} for v in (0, 5, "7", 2.5, -1, "1:30", "__none__", "", [1], 10 ** 30)] + \
+                [{"kwargs": {"foo": 1}}, {"kwargs": {"position": "x", "volume": 2}}]
+    stream_args = [{"metadata": "bad"}, {"metadata": "bad", "override": True}, {"override": True},
+                   {"override": "__none__"}, {"kwargs": {"foo": 1, "bar": "__none__"}}, {"file": "__none__"},
+                   {"file": 123}, {"file": ""}]
+    for op, c in variants():
+        for a in (play_args if op[0] == "play" else stream_args):
+            for foreign in ([], [3]):
+                cases.append({"family": "single", "op": list(op), "vol": c, "fault": None, "foreign": foreign, "args": a})
+            nm = names[key(op, c)]
+            k = (len(str(a)) + len(nm)) % len(nm)         # together with a collaborator failure somewhere
+            kind = "fail" if nm[k].startswith("sync:") or k % 2 else "cancel"
+            cases.append({"family": "single", "op": list(op), "vol": c, "fault": [k, kind], "foreign": [], "args": a})
     #    receivers whose TXT record makes helper parsing raise between two collaborator calls
     for props in ({"ft": "0X4A7FCA00,0xBC354BD0"}, {"features": "zz"}, {"ft": ""}):
         for op in (("stream", True), ("stream", False)):
@@ -1263,6 +1364,15 @@ def nontrivial(case, obs):
     return sum(1 for o in obs["steps"] if o["outcome"] in ("fail", "cancel", "refused")) >= 1
 
 
+OWN_FAIL = set()
+
+
+def args_key(case):
+    import json
+
+    return json.dumps([case["op"], case["vol"], case.get("args")], sort_keys=True)
+
+
 def run(ctx, only=None):
     cases = only if only is not None else gen_cases(ctx)
     evaluated = []
@@ -1275,6 +1385,10 @@ def run(ctx, only=None):
         evaluated.append((case, obs, len(lines), len(ml)))
         lines += ml
     answers = ctx.lean(lines)
+    for case, obs, _s, _c in evaluated:
+        if case["family"] == "single" and case.get("args") is not None and not case["fault"] \
+                and not case["foreign"] and str(obs.get("outcome", "")).startswith("err:"):
+            OWN_FAIL.add(args_key(case))
     for case, obs, start, cnt in evaluated:
         fam = case["family"]
         ctx.note("family:" + fam)
